@@ -25,7 +25,10 @@ class C20(Prop):
                   "it uses the class-based creators) and several command-line orders (content "
                   "path first, last, and right after each list-valued flag; flag aliases); TLC validates that every "
                   "option landed in its documented field and that all members of the group wrote the same file apart "
-                  "from the creation date, at the requested location, and nothing else.")
+                  "from the creation date, at the requested location, and nothing else. CliArgv.tla refines the command line to "
+                  "single tokens (greedy list flags, --flag=value, scalar flags, the positional, the recovery): ArgvRefines and "
+                  "termination over 16 345 command lines, four wrong variants must fail; the universe is replayed into the real "
+                  "front end and the namespace argparse produces is compared with the model's (M20.argv).")
     rule = ("groups = option subsets of {announce, web-seed, http-seed, private, source, comment, piece-length, "
             "meta-version, out, align} x routes {kw, config, cli in 3-6 argument orders}; non-trivial = cli members "
             "whose content path is not the first argument, and config / kw members; distinct by (subset, route, order)")
